@@ -35,6 +35,7 @@ def activate(variant="plain"):
 def child_env(variant):
     """Environment for a worker subprocess of the given build variant."""
     env = dict(os.environ)
+    env["VERIF_OVERLAY_" + variant.upper()] = build.ensure(variant)
     env["PYTHONHASHSEED"] = "0"
     env.pop("PURE_PYTHON", None)
     if variant == "asan":
